@@ -7,7 +7,7 @@ from canon import coq_fs, coq_str, coq_z, coq_opt, coq_cells, coq_res
 ID = "C09"
 LEVEL = "proof"
 PROPS_FILE = "Props/C09.v"
-EXTRA_PROPS = ("Props/C09Tie.v",)
+EXTRA_PROPS = ("Props/C09Tie.v", "Props/C09TieSplice.v", "Props/C09TieAppend.v", "Props/C09TieSetslice.v", "Props/C09TieSetitem.v")
 CORR_VO = "Corr/C09.vo"
 REQUIRE = "From Curtsies Require Import Model.Base Model.Slice Model.Splice Corr.C09."
 CASE_TYPE = "C09.case"
@@ -26,15 +26,22 @@ RULE = ("small scope: every run layout with <= 3 runs of 0..3 characters and eve
         "after the call and must be unchanged. non-trivial = the FmtStr and the replacement are not both empty; "
         "distinct = distinct input")
 GENERATORS = ("gen/gen_pure.py",)
-PURE_HELPERS = ('FmtStr_divides',)
+PURE_HELPERS = ('FmtStr_divides', 'FmtStr_splice', 'FmtStr_append', 'FmtStr_setslice_with_length', 'FmtStr_setitem')
 TRUSTED = [
-    "translator gen/gen_pure.py (dumps the Python AST of the getter of FmtStr.divides node by node into coq/Gen/PureFmt.v) and the "
-    "reference semantics of that Python subset coq/Spec/PyMini.v, itself run against CPython on enumerated FmtStrs in every check "
-    "(tie theorem C09_divides_is_the_repository_property)",
+    "translator gen/gen_pure.py (dumps the Python AST of FmtStr.splice, append, setslice_with_length, setitem, __add__, __radd__ and "
+    "of the getter of FmtStr.divides node by node into coq/Gen/PureFmt.v) and the reference semantics of that Python subset "
+    "coq/Spec/PyMini.v (incl. chained comparisons, keyword arguments, isinstance against the module's classes, a filtered generator "
+    "expression under *, method calls and + dispatched to the generated methods of the class, assert with a message expression), "
+    "itself run against CPython on enumerated FmtStrs / operands / ranges in every check (tie theorems "
+    "C09_divides_is_the_repository_property, C09_splice_is_the_repository_method, C09_splice_default_end_is_the_repository_method, "
+    "C09_append_is_the_repository_method, C09_setslice_with_length_is_the_repository_method, C09_setitem_is_the_repository_method)",
+    "named oracles of coq/Spec/PyEnvFmt.v used by the splice tie: Chunk(s, atts), FmtStr(*parts), fmtstr(s) for s without an escape "
+    "introducer, len(fs); validated against CPython by the same pass",
     "Coq 8.16.1 kernel incl. vm_compute (no native_compute); Print Assumptions: closed under the global context",
     "reference list semantics coq/Spec/ListOps.v (list_splice = firstn s l ++ x ++ skipn e l, setslice_ref)",
     "harness canonicaliser harness/canon.py (FmtStr runs -> cells -> Coq literal) and the parser of coqc's answer",
-    "modelled, not verified: Python zip / list extend / generator filter, built-in str slicing (= pyslice), chained comparison",
+    "in the hand model (proved equal to the interpreter's run of the method text): Python zip / list extend / generator filter, "
+    "built-in str slicing (= pyslice), chained comparison",
 ]
 ASSUMPTIONS = ["0 <= start <= end (end omitted = start), as the property's quantifier states; other arguments are "
                "modelled and compared with the implementation but no theorem speaks about them",
@@ -48,7 +55,11 @@ NEWS = [["str", "XY"], ["str", ""], ["str", "Z"],
         ["fs", []],
         ["fs", [["", [6, 0, 0, 0, 0, 0, 0, 0]]]],
         ["fs", [["", [6, 0, 0, 0, 0, 0, 0, 0]], ["S", [0, 0, 1, 0, 0, 0, 0, 0]]]],
-        ["fs", [["T", Z8], ["", [0, 2, 0, 0, 0, 0, 0, 0]], ["U", [8, 0, 0, 0, 0, 0, 1, 0]]]]]
+        ["fs", [["T", Z8], ["", [0, 2, 0, 0, 0, 0, 0, 0]], ["U", [8, 0, 0, 0, 0, 0, 1, 0]]]],
+        # an empty first run formatted like one of the runs of the layouts (ATTS), then differently formatted text
+        ["fs", [["", list(ATTS[0])], ["V", [0, 7, 0, 0, 0, 0, 0, 0]]]],
+        ["fs", [["", list(ATTS[1])], ["W", list(ATTS[2])]]],
+        ["fs", [["", list(ATTS[2])], ["", list(ATTS[0])], ["K", Z8]]]]
 
 
 def layouts(maxruns=3, maxlen=3, minruns=0):
@@ -102,7 +113,7 @@ def generate(rng, tier):
     ss = []
     for runs in lays:
         n = total(runs)
-        for fs in NEWS[:5] + NEWS[7:]:
+        for fs in NEWS[:5] + NEWS[7:8]:
             for s in range(0, n + 3):
                 ss.append(["setitem", runs, s, fs])
                 for e in range(s, n + 3):
